@@ -5,6 +5,7 @@ From Verif Require Import model.Resampler proofs.ResamplerTimeline.
 
 (* The function the model runs is `Resampler._calculate_window_end` as translated from /repo. *)
 Theorem C07_window_end_as_translated : forall now period align,
+  0 < period ->
   window_end now period align = window_end_spec now period align.
 Proof. exact window_end_as_translated. Qed.
 
@@ -25,11 +26,11 @@ Theorem C07_first : forall now period align,
 Proof. exact window_end_first_translated. Qed.
 
 (* The k-th tick (the tick after any prefix [pre] containing k ticks, whatever else happened: additions,
-   removals, failing sinks, stopped sources, any lateness) hands w + k*period to every registered live series
-   and nothing else to anybody. *)
-Theorem C07_kth : forall period st pre late fail dead post,
-  let es := pre ++ Tick late fail dead :: post in
-  let o := nth (length pre) (rrun period st es) ([], false) in
+   removals, failing sinks, stopped sources, dictionary changes during earlier gathers, any lateness) hands
+   w + k*period to every registered live series and nothing else to anybody. *)
+Theorem C07_kth : forall period st pre late fail dead during post,
+  let es := pre ++ Tick late fail dead during :: post in
+  let o := nth (length pre) (rrun period st es) ([], OOk) in
   let stk := rfinal period st pre in
   (forall s t, In (s, t) (fst o) -> t = r_wend st + Z.of_nat (nticks pre) * period) /\
   (forall s, In s (r_series stk) -> ~ In s dead -> In (s, r_wend st + Z.of_nat (nticks pre) * period) (fst o)).
@@ -53,11 +54,17 @@ Theorem C07_shared : forall period st es o s1 t1 s2 t2,
   In o (rrun period st es) -> In (s1, t1) (fst o) -> In (s2, t2) (fst o) -> t1 = t2.
 Proof. exact shared_timestamp. Qed.
 
-(* The increment happens on the ResamplingError path too. *)
-Theorem C07_error_path : forall period st late fail dead,
-  let '(st', (outs, raised)) := rstep period st (Tick late fail dead) in
-  r_wend st' = r_wend st + period /\ r_series st' = r_series st /\
-  (raised = true <-> exists s, In s (r_series st) /\ (In s fail \/ In s dead)).
+(* The increment happens on every way out of a loop iteration: normally, with ResamplingError, and with the
+   IndexError that kills resample() when add_timeseries ran while the tick's sinks were awaited (exactly when
+   the dictionary has grown during the gather).  With an undisturbed gather the error names exactly the
+   registered series whose sink failed or whose source had stopped. *)
+Theorem C07_error_path : forall period st late fail dead during,
+  let '(st', (outs, how)) := rstep period st (Tick late fail dead during) in
+  r_wend st' = r_wend st + period /\
+  r_series st' = fold_left apply_change during (r_series st) /\
+  (how = OCrash <-> (length (r_series st) < length (r_series st'))%nat) /\
+  (during = [] ->
+   how = match filter (fun s => zmem s fail || zmem s dead) (r_series st) with [] => OOk | l => ORaised l end).
 Proof. exact error_path. Qed.
 
 (* From creation: every timestamp ever handed to any sink is w0 + k*period, k >= 0, on the align_to grid
@@ -72,16 +79,21 @@ Theorem C07_timeline : forall now period align es o s t,
 Proof. exact timeline_from_creation_translated. Qed.
 
 (* non-vacuity: creation 250 ms after a grid point, 1 s period, epoch alignment; two series, one added late,
-   one failing sink, a tick three periods late: timestamps 2 s, 3 s, 4 s on the grid; raised exactly once *)
+   one failing sink, a tick three periods late: timestamps 2 s, 3 s, 4 s on the grid; raised exactly once.
+   Then series 3 is added while the sinks of the 5 s tick are awaited: resample() dies (OCrash), is called
+   again, and the next tick hands 6 s to both series. *)
 Example C07_nonvacuous :
   let now := 1700000000250000 in
   let we := window_end now 1000000 (Some 0) in
   we = (1700000002000000, 750000) /\
   rrun 1000000 (rinit now 1000000 (Some 0) we)
-       [Add 1; Tick 0 [] []; Add 2; Tick 3000000 [2] []; Remove 2; Tick 0 [] []] =
-  [([], false); ([(1, 1700000002000000)], false); ([], false);
-   ([(1, 1700000003000000); (2, 1700000003000000)], true); ([], false);
-   ([(1, 1700000004000000)], false)].
+       [Add 1; Tick 0 [] [] []; Add 2; Tick 3000000 [2] [] []; Remove 2; Tick 0 [] [] [];
+        Tick 0 [] [] [CAdd 3]; Tick 0 [] [] []] =
+  [([], OOk); ([(1, 1700000002000000)], OOk); ([], OOk);
+   ([(1, 1700000003000000); (2, 1700000003000000)], ORaised [2]); ([], OOk);
+   ([(1, 1700000004000000)], OOk);
+   ([(1, 1700000005000000)], OCrash);
+   ([(1, 1700000006000000); (3, 1700000006000000)], OOk)].
 Proof. vm_compute. split; reflexivity. Qed.
 
 Print Assumptions C07_window_end_as_translated.
